@@ -159,6 +159,10 @@ def sexp(p):
         return "(map %s %d)" % (sexp(p["p"]), p["menu"])
     if k in ("usage", "group-help"):
         return "(%s %s %s)" % (k, sexp(p["p"]), hx(p["d"]))
+    if k == "complete":
+        return "(complete %s %d)" % (sexp(p["p"]), p["menu"])
+    if k == "complete-shell":
+        return "(complete-shell %s %s)" % (sexp(p["p"]), p["kind"])
     if k == "pure":
         return "(pure %s)" % p["v"]
     if k == "pure-with":
@@ -446,7 +450,7 @@ def gen_sentence(rng, p, sent, present_p=0.7, valid=True, depth=0, group=None):
         if rng.random() < present_p:
             return gen_sentence(rng, p["p"], sent, present_p, valid, depth, g)
         return True
-    if k in ("guard", "parse", "map", "hide", "hide-usage", "usage", "group-help", "boxed"):
+    if k in ("guard", "parse", "map", "hide", "hide-usage", "usage", "group-help", "boxed", "complete", "complete-shell"):
         return gen_sentence(rng, p["p"], sent, present_p, valid, depth, group)
     if k in ("pure", "pure-with", "fail"):
         return True
